@@ -37,10 +37,10 @@ def make_kfd(rng, node_mode=False):
         r = rng.random()
         if r < 0.3:
             kw["subpath_constraints_coverage"] = rng.choice([0.5, 0.75, 0.25])
-        elif r < 0.5:
+        elif r < 0.65:
             for e in G.edges():
                 if rng.random() < 0.8:
-                    G.edges[e]["len"] = rng.choice([1, 2, 3, 5, 0])
+                    G.edges[e]["len"] = rng.choice([1, 2, 3, 5, 0, 0])
             kw["subpath_constraints_coverage_length"] = rng.choice([1, 0.5, 0.75])
             kw["length_attr"] = "len"
     k = max(1, len(set(map(tuple, paths))) + rng.choice([-1, 0, 0, 1]))
